@@ -1,5 +1,6 @@
 import Ogen.RegexSemantics_proof
 import Ogen.RegexFlatCommute_proof
+import Ogen.RegexAstCommute_proof
 import Ogen.Generated.Facts_regex
 /-!
 # C08 — converted regular expressions match exactly what the ECMA-262 pattern matches (partial)
@@ -16,10 +17,15 @@ Three layers.
    theorems say that the constants the atom lemmas are about *are* the constants in the source.
 3. **Syntax** (`Ogen/RegexConvert_feasibility.lean`, `RegexFlatCommute_proof.lean`): a model of
    `parser.scan / scanGroup / scanBracket / scanEscape`; `convert_flat` proves that `Convert` on a printed
-   sequence of flat tokens is the concatenation of the token conversions. Groups, classes with ranges and the
-   look-ahead escapes (`\0…`, `\x`, `\u`, `\c`) are **not** proved to commute; the model is compared with the
-   real `Convert` on random token sequences on every run, and the end-to-end behaviour
-   `Compile(p).MatchString(s)` with the ECMA semantics above.
+   sequence of flat tokens is the concatenation of the token conversions, and `convert_whole_expr`
+   (`RegexAstCommute_proof.lean`) that on the printed form of **any expression of the fragment of layer 1**
+   (fully parenthesised with non-capturing groups, any size and nesting) `Convert` emits exactly the printed
+   form of `convAst e` — which with `preserves` closes the chain text → text for that fragment: the text the
+   converter writes denotes what the text it read denotes (trusted there: that an ECMAScript parser reads
+   `printE e` as `e` and RE2's reads `printR r` as `r`). Classes with ranges and the look-ahead escapes
+   (`\0…`, `\x`, `\u`) are **not** proved to commute; the model is compared with the real `Convert` on
+   random token sequences on every run, and the end-to-end behaviour `Compile(p).MatchString(s)` with the
+   ECMA semantics above.
 -/
 namespace C08
 open ReSem
@@ -53,6 +59,12 @@ theorem facts_empty_class : Facts.Regex.emptyClass = [0x5b, 0x5e, 0, 0x2d, anyHi
     conversions -/
 theorem convert_flat (toks : List Conv.Tok) (hok : ∀ t ∈ toks, t.ok) :
     Conv.convert (toks.flatMap Conv.Tok.print) = .ok (toks.flatMap Conv.Tok.conv) := Conv.convert_flat toks hok
+
+/-- **syntax, whole expressions**: for every expression of the fragment (literals that are plain characters, `.`,
+    `\s \S \d \D \w \W`, `[^]`, `[]`, `\cX`, `^ $ \b \B`, concatenation, alternation, `* + ?`, nested to any
+    depth), `Convert` applied to its printed form yields the printed form of its AST-level translation -/
+theorem convert_whole_expr (e : E) (hp : Conv.Printable e) :
+    Conv.convert (Conv.printE e) = .ok (Conv.printR (convAst e)) := Conv.convert_printed e hp
 
 /-! non-vacuity -/
 example : accepts (ecmaDenote (.cat .bol (.cat (.plus (.space false)) .eol))) [' ', Char.ofNat 0x2028, Char.ofNat 0xfeff] = true := by
